@@ -277,6 +277,10 @@ def bytes_are_same(b1: bytes, b2: bytes) -> bool:
     return len(b1) == len(b2) and int.from_bytes(xor(b1, b2), 'little') == 0
 
 
+# cache key of the OP_RETURN control flag: neither str (interpreter/embedder
+# values) nor bytes (script registers), so it collides with neither
+_RETURNED = ('returned',)
+
 def OP_FALSE(tape: Tape, stack: Stack, cache: dict) -> None:
     """Puts a null byte onto the stack."""
     stack.put(b'\x00')
@@ -870,8 +874,8 @@ def OP_CALL(tape: Tape, stack: Stack, cache: dict) -> None:
     subtape.pointer = 0
     run_tape(subtape, stack, cache, additional_flags=tape.flags)
     subtape.pointer = init_pointer
-    if 'returned' in cache:
-        del cache['returned']
+    if _RETURNED in cache:
+        del cache[_RETURNED]
 
 def OP_IF(tape: Tape, stack: Stack, cache: dict) -> None:
     """Read the next 2 bytes from the tape, interpreting as an unsigned
@@ -893,7 +897,7 @@ def OP_IF(tape: Tape, stack: Stack, cache: dict) -> None:
             plugins=tape.plugins
         )
         run_tape(subtape, stack, cache, additional_flags=tape.flags)
-        if 'returned' in cache:
+        if _RETURNED in cache:
             OP_RETURN(tape, stack, cache)
 
 def OP_IF_ELSE(tape: Tape, stack: Stack, cache: dict) -> None:
@@ -920,7 +924,7 @@ def OP_IF_ELSE(tape: Tape, stack: Stack, cache: dict) -> None:
         plugins=tape.plugins,
     )
     run_tape(subtape, stack, cache, additional_flags=tape.flags)
-    if 'returned' in cache:
+    if _RETURNED in cache:
         OP_RETURN(tape, stack, cache)
 
 def OP_EVAL(tape: Tape, stack: Stack, cache: dict) -> None:
@@ -949,11 +953,11 @@ def OP_EVAL(tape: Tape, stack: Stack, cache: dict) -> None:
 
     # run
     run_tape(subtape, stack, cache, additional_flags=tape.flags)
-    if 'returned' in cache:
+    if _RETURNED in cache:
         if 'eval_return' in tape.flags and tape.flags['eval_return']:
             OP_RETURN(tape, stack, cache)
         else:
-            del cache['returned']
+            del cache[_RETURNED]
 
 def OP_NOT(tape: Tape, stack: Stack, cache: dict) -> None:
     """Pulls a value from the stack; performs bitwise NOT operation;
@@ -973,7 +977,7 @@ def OP_RANDOM(tape: Tape, stack: Stack, cache: dict) -> None:
 def OP_RETURN(tape: Tape, stack: Stack, cache: dict) -> None:
     """Ends the script."""
     tape.pointer = len(tape.data)
-    cache['returned'] = True
+    cache[_RETURNED] = True
 
 def OP_SET_FLAG(tape: Tape, stack: Stack, cache: dict) -> None:
     """Read the next byte from the tape, interpreting as an unsigned int;
@@ -1195,7 +1199,7 @@ def OP_TRY_EXCEPT(tape: Tape, stack: Stack, cache: dict) -> None:
         )
         run_tape(subtape, stack, cache, additional_flags=tape.flags)
 
-    if 'returned' in cache:
+    if _RETURNED in cache:
         OP_RETURN(tape, stack, cache)
 
 def OP_LESS(tape: Tape, stack: Stack, cache: dict) -> None:
@@ -1276,8 +1280,8 @@ def OP_LOOP(tape: Tape, stack: Stack, cache: dict) -> None:
     while bytes_to_bool(condition):
         sert(count < tape.callstack_limit, 'OP_LOOP limit exceeded')
         run_tape(subtape, stack, cache, additional_flags=tape.flags)
-        if 'returned' in cache:
-            del cache['returned']
+        if _RETURNED in cache:
+            del cache[_RETURNED]
             return
         subtape.reset_pointer()
         count += 1
@@ -2231,8 +2235,8 @@ def run_auth_scripts(
         # execute each additional script
         scripts = scripts[1:]
         for s in scripts:
-            if 'returned' in cache:
-                del cache['returned']
+            if _RETURNED in cache:
+                del cache[_RETURNED]
             tape = Tape(
                 s if type(s) is bytes else s.bytes,
                 callstack_limit=tape.callstack_limit,
